@@ -3519,8 +3519,15 @@ RegistryT<ArgsT<TG_, TSL_, TRL_, NCC_, NOC_, NOU_, TRO_ HFSM2_IF_SERIALIZATION(,
 		 parent;
 		 parent = forkParent(parent.forkId))
 	{
-		if (parent.forkId > 0)
+		if (parent.forkId > 0) {
 			compoRemains.set(parent.forkId - 1);
+
+			// a later request overrides an earlier one switching an ancestor away
+			Prong& requested = compoRequested[parent.forkId - 1];
+
+			if (requested != parent.prong)
+				requested  = INVALID_PRONG;
+		}
 		else
 		if (parent.forkId < 0)
 			requestedOrthoFork(parent.forkId).set(parent.prong);
@@ -3855,6 +3862,12 @@ RegistryT<ArgsT<TG_, TSL_, TRL_, NCC_, 0, 0, TRO_ HFSM2_IF_SERIALIZATION(, NSB_)
 		{
 			HFSM2_ASSERT(parent.forkId > 0);
 			compoRemains.set(parent.forkId - 1);
+
+			// a later request overrides an earlier one switching an ancestor away
+			Prong& requested = compoRequested[parent.forkId - 1];
+
+			if (requested != parent.prong)
+				requested  = INVALID_PRONG;
 		}
 	}
 }
